@@ -38,7 +38,19 @@ def run_one_config(args):
     P = PARAMS[pid]
     cfg = lg.rand_cfg(rng, **P['c'])
     s = rng.choice(cfg['streams'])
+    if pid in ('C02', 'C03') and rng.random() < 0.4:
+        # a member with an alignment beyond 64 bits at the end of one payload: the size of that record depends on the
+        # position modulo 128 ... 512 (alignments are arbitrary powers of two)
+        e = rng.choice(tc.sorted_erts(s))
+        if e['p'] is not None and all(n != 'zz_wide' for n, _ in e['p']['members']):
+            e['p']['members'].append(('zz_wide', ('int', False, rng.choice([8, 32, 64]), rng.choice([128, 256, 512]))))
     hists = [tc.rand_history(rng, cfg, s, rng.choice(P['lens']), rng.choice(P['extra']), **P['h']) for _ in range(nh)]
+    if pid in ('C02', 'C03'):
+        # directed histories: a packet switch which changes the size of the record being written
+        for k in range(2):
+            h = tc.directed_switch_history(rng, cfg, s, hardest=(k == 0))
+            if h is not None:
+                hists.append(h)
     d = os.path.join(scratch, 'cfg%d' % idx)
     os.makedirs(d)
     res = {'idx': idx, 'seed': seed, 'cfg': cfg, 's': s, 'hists': hists, 'error': None}
@@ -50,6 +62,7 @@ def run_one_config(args):
         if pid in ('C02', 'C03'):
             res['probes'], res['probe_error'] = tc.probe_sizes(cfg, s, d, rng)
             res['rprobes'], res['rprobe_error'] = tc.probe_reserve(d, rng)
+            res['sprobes'], res['sprobe_error'] = tc.probe_switch(cfg, s, d, rng)
         impl = tc.run_impl(exe, len(hists))
         evs = [tc.split_events(t) for t, _ in impl]
         packets = [tc.packets_of(e) for e in evs]
@@ -711,11 +724,38 @@ def campaign(ctx, pid):
                             ctx.violation('%s: _reserve_er_space decides (return %d, callbacks %r, discards %d, position %d) where the record of %d bits at '
                                           'position %d of a %d-bit packet requires (return %d, callbacks %r, discards %d, position %d)' % (
                                               pid, iret, icb, idisc, iat, pr['er_size'], pr['at'], pr['packet_size'], eret, ecb, edisc, eat), rep)
+        if pid in ('C02', 'C03'):
+            if r.get('sprobes') is None:
+                ctx.corr_broken.append('config seed %d: %s' % (r['seed'], r.get('sprobe_error')))
+            else:
+                for pr in r['sprobes']:
+                    stats['switch_probes'] += 1
+                    stats['switch_probes_p_minus_q_multiple_of_64'] += 1 if (pr['p'] - pr['q']) % 64 == 0 else 0
+                    if pr['impl'] == pr['expected']:
+                        continue
+                    stats['switch_probe_mismatches'] += 1
+                    if stats['switch_probe_mismatches'] <= 3:
+                        im = pr['impl']
+                        rep = dict(pr, config_seed=r['seed'], config=cfg_repr(cfg), stream=s['name'],
+                                   note='real init + real open_packet, then ctx->at set to p; the real tracing function is called with platform '
+                                        'callbacks that call the real close_packet / open_packet; expected = layout arithmetic (the record '
+                                        'needs size_at_q bits in the packet opened by the switch, which has packet_bits - q bits)')
+                        if pid == 'C02' and (not im['bytes_after_buffer_untouched'] or im['at'] > im['packet_size']):
+                            ctx.violation('C02: after a packet switch the record (%d bits at the old position %d, %d bits at the new position %d) is written to a '
+                                          'packet of %d bits: position %d after the call, bytes after the buffer %s' % (
+                                              pr['size_at_p'], pr['p'], pr['size_at_q'], pr['q'], pr['packet_bits'], im['at'],
+                                              'untouched' if im['bytes_after_buffer_untouched'] else 'OVERWRITTEN'), rep)
+                        else:
+                            ctx.violation('%s: tracing call with a packet switch (record of %d bits at the old position %d, %d bits at the new position %d, '
+                                          'packet of %d bits): expected %r, the generated tracer gives %r' % (
+                                              pid, pr['size_at_p'], pr['p'], pr['size_at_q'], pr['q'], pr['packet_bits'], pr['expected'], im), rep)
         for hi, h in enumerate(r['hists']):
             stats['histories'] += 1
             stats['calls'] += len(h['calls'])
             if h.get('eager'):
                 stats['eager_platform_histories'] += 1
+            if h.get('directed'):
+                stats['directed_switch_resize_histories'] += 1
             verdict = compare_model(ctx, r, hi, stats)
             toks, err = r['impl'][hi]
             if verdict == 'memerr-silent':
@@ -772,7 +812,7 @@ def campaign(ctx, pid):
     ctx.cov.update({
         'evaluations': stats['histories'],
         'distinct_nontrivial': distinct,
-        'rule': 'random structured configurations (layout_gen.rand_cfg) x random histories of public API calls with scripted platform answers; every history runs on the compiled generated tracer (gcc -ansi, ASan+UBSan, exact-size heap buffers) and on the Coq tracer model (vm_compute); distinct = distinct (configuration, calls, oracle, buffer size); every history has >= 2 calls',
+        'rule': 'random structured configurations (layout_gen.rand_cfg) x random histories of public API calls with scripted platform answers (C02, C03: plus up to two directed histories per configuration in which a packet switch changes the size of the record being written and only the size at the new position exceeds the new packet); every history runs on the compiled generated tracer (gcc -ansi, ASan+UBSan, exact-size heap buffers) and on the Coq tracer model (vm_compute); distinct = distinct (configuration, calls, oracle, buffer size); every history has >= 2 calls',
         'traces_validated_against_impl': stats['agree'] + stats['agree_on_error'],
         'model_impl_disagreements': stats['diff'],
         'stats': dict(stats),
